@@ -38,19 +38,19 @@ CLAIMS.update({
    text="Per case up to 4 queries: field (known, unknown, empty name), [start,end) with nil or non-empty bounds drawn around the vocabulary, prefix / accept-all / contains-byte automata implemented by the harness; the enumeration must equal the model's filtered term list with true document counts, nil must stay nil (or the enumeration is abandoned early and closed), Contains and PostingsList (recycling the previous list) must agree for present and absent terms. Giant segments (16 384-66 100 documents, one term carried by every document: completely full bitmap containers) have all dictionaries and entry counts compared with the model.",
    note="Trusted: reference model; harness DFAs.", ref="DESIGN.md §5 C08"),
  "C09": dict(tech="deterministic simulation: seeded baton scheduler interleaving reader tasks, re-entrant visitors and a concurrent merge at storage/callback seams; per-op solo-result oracle; Go race detector under the serialised schedule (baton invisible to the detector)",
-   text="2-4 reader tasks (dictionary, postings, stored, doc values, DocsMatchingTerms, stats, persist; visitors that re-enter the segment) plus optionally a merge task share one freshly loaded segment (memory- or file-backed: every storage read, visitor callback and operation boundary is a yield point). The schedule list in the case decides every switch. Every operation must deliver exactly the model's solo result, the merge its solo bytes, no panic/hang; the same cases run in a -race build whose baton uses raw syscalls, so every pair of conflicting accesses ice does not order is reported deterministically. Tasks also observe Size(), Close() what they opened (sometimes twice) or recycle one postings list/iterator; an optional prelude lets a merge run into a storage fault before the tasks start.",
+   text="2-4 reader tasks (dictionary, postings, stored, doc values, DocsMatchingTerms, stats, persist; visitors that re-enter the segment) plus optionally a merge task share one freshly loaded segment (memory- or file-backed: every storage read, visitor callback and operation boundary is a yield point). The schedule list in the case decides every switch. Every operation must deliver exactly the model's solo result, the merge its solo bytes, no panic/hang; the same cases run in a -race build whose baton uses raw syscalls, so every pair of conflicting accesses ice does not order is reported deterministically. Tasks also observe Size(), Close() what they opened (sometimes twice) or recycle one postings list/iterator; an optional prelude lets a merge run into a storage fault, or be cancelled, before the tasks start. One case in four honours yield points inside critical sections (a task parked while holding the segment lock; if the next task needs that lock the scheduler notices within milliseconds and lets the run continue unscheduled), one merge case in four runs the same merge twice at once, one file-backed case in five injects a transient storage fault during the concurrent phase (then only: no panic, no hang, no race, no lock left, segment reads right afterwards).",
    note="Interleavings are explored at seam granularity, not instruction level; data races between seams are detected by the race detector along explored schedules (no false positives, can miss races on paths not executed). Trusted: reference model, the //go:norace scheduler.", ref="DESIGN.md §5 C09, §2.3-2.4"),
  "C10": dict(tech="deterministic simulation of two code versions sharing a disk: differential observation current vs frozen reference implementation in both directions, plus a committed golden corpus",
    text="Every segment of seeded build/merge worlds is written by the current code and by the frozen reference copy (/verif/refice); each image is loaded memory- and file-backed by both readers and all observations must agree (and agree with the model). 48 committed reference-written files with recorded observations must be reproduced by the current reader alone.",
    note="Trusted: /verif/refice (pinned ice + the format-neutral fix commits listed in refice/ORIGIN); the golden corpus was generated by it and cross-checked against the model.", ref="DESIGN.md §5 C10"),
  "C12": dict(tech="deterministic simulation with exhaustive per-workload fault enumeration: failing writer at every byte offset, fail-once samples, close channel closed at every seam event; a sample of the workloads also under the Go race detector",
-   text="Per generated workload (Segment.WriteTo of a built/memory/file view, Merger.WriteTo with buffer sizes 0/1/2/7/64/4096, unbuffered hook merge) the fault-free run fixes the reference bytes; then the simulated writer fails persistently after k bytes for every k in [0,L), fails once at 16 sampled offsets, and for merges the close channel is closed before the call, at every write and every input storage read (inputs are reloaded cold for every execution), and after the last event. Every third failing offset fails with an error that calls itself Temporary(); the simulated file offers Sync(). Error-or-complete-file oracle; the fault-free output is validated against the model; after a failed attempt a healthy writer must receive the identical file. The lifecycle scenario adds failed persists and cancelled/failed background merges inside an index life cycle; merge-read-fault adds failing input storage during merges; the arguments handed to Merge (drops slice, bitmaps, segments slice) must come back untouched from every failed or cancelled call.",
+   text="Per generated workload (Segment.WriteTo of a built/memory/file view, Merger.WriteTo with buffer sizes 0/1/2/7/64/4096, unbuffered hook merge) the fault-free run fixes the reference bytes; then the simulated writer fails persistently after k bytes for every k in [0,L), fails once at 16 sampled offsets, and for merges the close channel is closed before the call, at every write and every input storage read (inputs are reloaded cold for every execution), and after the last event. Every third failing offset fails with an error that calls itself Temporary(); the simulated file offers Sync(). For public merges a sample of the failing/cancelled executions asks the SAME Merger to write again into the truncated same destination: it may refuse, but success must mean the complete file. Error-or-complete-file oracle; the fault-free output is validated against the model; after a failed attempt a healthy writer must receive the identical file. The lifecycle scenario adds failed persists and cancelled/failed background merges inside an index life cycle; merge-read-fault adds failing input storage during merges; the arguments handed to Merge (drops slice, bitmaps, segments slice) must come back untouched from every failed or cancelled call.",
    note="exhaustive refers to each workload's fault space; workloads are sampled. Writers never return n<len with nil error.", ref="DESIGN.md §5 C12"),
  "C13": dict(tech="deterministic simulation: seeded lookup histories reusing earlier postings lists/iterators/dictionaries/readers across segments and encodings, compared with the reference model",
    text="Histories of up to 30 lookups over 1-5 segments in which each postings lookup may pass any postings list / iterator created earlier (from any segment, 1-hit or general, exhausted or half-consumed) as prealloc, Dictionary objects and open DictionaryIterators are continued across other lookups, one doc-value reader per segment is reused, interleaved with stored-field visits (pooled contexts), earlier postings lists are walked again later, term keys live in one scratch buffer, lookups are sticky (three-step patterns), two dictionary iterators stay open on one Dictionary, twin segments share layouts; each lookup's result must equal the model's, iterators are sometimes created and never stepped before being recycled, and what the optimisation interface (ActualBitmap, DocNum1Hit) reports for every iterator must equal what an iterator made from fresh objects reports. The docvalues scenario (one reader, long visit histories) runs under this check as well.",
    note="Trusted: reference model.", ref="DESIGN.md §5 C13"),
  "C14": dict(tech="deterministic simulation: seeded build histories and baton-scheduled concurrent builders interleaved at document-iterator callbacks; byte-equality oracle; race-detector build",
-   text="The target batch is built, then again after each of 0-5 other builds (other shapes, failing builds with an unknown chunk mode), then concurrently with 1-3 other New calls interleaved by the scheduler at every Document.EachField callback; all builds of one (batch, norm, chunk mode) must be byte-identical. The same cases run under -race with the invisible baton. Pool reuse is measured through the verif probe.",
+   text="The target batch is built, then again after each of 0-5 other builds (other shapes, failing builds with an unknown chunk mode), then concurrently with 1-3 other New calls interleaved by the scheduler at every Document.EachField callback; all builds of one (batch, norm, chunk mode) must be byte-identical. The same cases run under -race with the invisible baton. Pool reuse is measured through the verif probe. Two of the six norm functions are closures of one function literal. Scenario fresh-process: the target batch is built in two fresh child processes (as the very first build; after 1-2 other builds, the first usually tiny) and in the long-running shard process - all three byte strings must be equal (state in package-level singletons initialised by the first use in a process).",
    note="sync.Pool contents are not under the simulator's control; reuse is measured (pool-reuse-observed), not forced.", ref="DESIGN.md §5 C14"),
  "C15": dict(tech="deterministic simulation: seeded read/persist/merge histories with before/after snapshots of observations, persisted bytes, backing memory and caller bitmaps (set and serialisation)",
    text="Snapshot of every segment (full observation, persisted bytes, backing slice) and of every caller bitmap (clone and serialised bytes); histories of up to 25 operations (full observations with reuse, postings walks with exclusion bitmaps, WriteTo, merges whose results join the pool, DocsMatchingTerms, stored and doc-value visits, CollectionStats().Merge into a returned value, doc-value readers requested with another segment's Fields() slice); afterwards everything (including CRC/offset/Size accessors) must be identical. Lifecycle scenario included; 40 persist-fault and 120 read-fault workloads run under this check too (merge arguments untouched by failed merges; after a transient storage fault fresh objects read the segment exactly as before).",
